@@ -126,13 +126,18 @@ type recOp struct {
 	bit      int  // value = 2^bit (up-down negatives: -(2^(30+bit)))
 	neg      bool // up-down counter subtraction
 	gaugeVal int64
-	fval     float64 // exponential histogram measurement
+	fval     float64   // exponential histogram measurement
+	burst    []float64 // exponential histogram: further values recorded into the same set by the same operation
+	zero     bool      // a measurement of value 0 on a sum instrument: it names no bit, but its attribute set exists from now on
 	task     string
 	inv, ret uint64
 	sleep    time.Duration
 }
 
 func (o *recOp) value() int64 {
+	if o.zero {
+		return 0
+	}
 	if o.neg {
 		return -(int64(1) << (30 + o.bit))
 	}
@@ -186,6 +191,7 @@ type world struct {
 
 	insts    []*inst
 	recs     []*recOp
+	zeros    []*recOp // zero-valued measurements on sum instruments
 	colls    []*collection
 	nColl    map[string]int
 	limit    int
@@ -407,6 +413,13 @@ func (engine) Body(r *simdrv.Run) {
 			if in.nextBit >= 28 {
 				continue
 			}
+			if w.limit == 0 && in.sumLike() && in.kind != kHistI && r.Cfg(10) == 0 {
+				// Add(0): kept apart from the bit-coded measurements (after seeded change C02-e)
+				op.zero = true
+				recPlans[t] = append(recPlans[t], op)
+				w.zeros = append(w.zeros, op)
+				continue
+			}
 			op.bit = in.nextBit
 			in.nextBit++
 			if in.kind == kUpDownI && r.Cfg(3) == 0 {
@@ -421,6 +434,14 @@ func (engine) Body(r *simdrv.Run) {
 				op.fval = []float64{1, 1.5, 1.25}[r.Cfg(3)] * math.Pow(2, float64(e))
 				if r.Cfg(12) == 0 {
 					op.fval = 0
+				}
+				if r.Cfg(3) == 0 {
+					// a burst: several values into one data point, so that it fills, downscales and regrows
+					// within one collection cycle (after seeded change C12-e)
+					for j, n := 0, 2+r.Cfg(5); j < n; j++ {
+						e := []int{0, 1, 2, 3, 7, -4, 11, 5, -9, 16, 4, 6}[r.Cfg(12)]
+						op.burst = append(op.burst, []float64{1, 1.5, 1.25, 1.75}[r.Cfg(4)]*math.Pow(2, float64(e)))
+					}
 				}
 			}
 			if r.Cfg(5) == 0 {
@@ -659,6 +680,9 @@ func (engine) Body(r *simdrv.Run) {
 				h, _ = meter.Float64Histogram("hist_exp")
 			}
 			h.Record(ctx, op.fval, attrs)
+			for _, v := range op.burst {
+				h.Record(ctx, v, attrs)
+			}
 		}
 	}
 	for t, plan := range recPlans {
